@@ -95,6 +95,25 @@ Proof.
 Qed.
 Print Assumptions C25_multi_each_pool_exact.
 
+(* ... and each pool's destructor, once none of ITS resources is held by any handle (whichever pool that handle started in), dequeues and
+   destroys each of its resources exactly once; while one is still held -- by a handle that may have come from another pool -- it blocks *)
+Theorem C25_multi_dtor_each_pool : forall Q e enq deq items, queue_spec Q e enq deq items ->
+  forall sizes nh ops p, p < length sizes ->
+  let s := proj Q e p (mrun Q enq deq (minit Q e enq sizes nh) ops) in
+  (held s = [] -> exists s', pstep Q enq deq s PDestroyPool = Some s' /\
+      Permutation (p_destroyed s') (seq 0 (nth p sizes 0)) /\ NoDup (p_destroyed s') /\ items (p_q s') = []) /\
+  (held s <> [] -> pstep Q enq deq s PDestroyPool = None).
+Proof.
+  intros Q e enq deq items HS sizes nh ops p Hp s.
+  destruct (mrun_refines Q e enq deq sizes nh p Hp ops) as [pops E]. subst s. rewrite E.
+  assert (A : p_alive (prun Q enq deq (pinit Q e enq (nth p sizes 0) nh) pops) = true) by (rewrite <- E; reflexivity).
+  split; intro H.
+  - destruct (C25_dtor_destroys_each_once Q e enq deq items HS (nth p sizes 0) nh pops A H) as (s' & H1 & H2 & H3 & _ & H5 & _).
+    exists s'. split; [exact H1|]. split; [exact H2|]. split; [exact H3|exact H5].
+  - exact (C25_dtor_blocks_if_outstanding Q e enq deq items HS (nth p sizes 0) nh pops A H).
+Qed.
+Print Assumptions C25_multi_dtor_each_pool.
+
 Example C25_multi_nonvacuous :
   let s := mlrun (mlinit [2; 1] 3) [MAcquire 0 0 0; MAcquire 1 1 0; MMoveAssign 0 1] in
   m_handles s = [MLive 1 (Some 0); MLive 1 None; MDead] /\ m_qs s = [[1; 0]; []].
